@@ -120,7 +120,9 @@ class C09Scenario(ChangeScenario):
                 if not exact and (inst['cancel'] is not None or due >= self.horizon - 4):
                     continue
                 if inst['cancel'] is None:
-                    vanished = any(w['post'] is None and w['pre'] is not None and w['pre']['metadata']['uid'] == key[1] and inst['flag'] <= w['t'] <= due
+                    # (the known defect: nobody escalates the stop of a daemon whose object is gone - whether it went while the daemon was being
+                    #  stopped or, the DELETED event being the first notice, before the daemon was even told)
+                    vanished = any(w['post'] is None and w['pre'] is not None and w['pre']['metadata']['uid'] == key[1] and w['t'] <= due
                                    for w in env.world.writes)
                     out.append(self.viol(env, 'never-cancelled', f"daemon {key[2]} got the stop flag at {inst['flag']} and ignores it; the cancellation due at {due} never came"
                                                                  + (" (the object vanished in between)" if vanished else ""),
@@ -344,10 +346,24 @@ def run(tier: str, seed: int) -> CheckResult:
                 params['user'] = [(1.0, 'createl', 'a', 'on', 'yes'), (2.0, 'createl', 'b', 'on', 'yes')] + [(6.0 if a[0] != 'resume' else 14.0, *a) for a in ops]
                 params['horizon'] = 24.0
                 inst.append(C09Scenario(**params))
+    # the object disappears while its processing is throttled after an error: the event that marks it for deletion is skipped (only the latest
+    # event is looked at when the pause is over), the finalizer is removed by force - the DELETED event is the first the operator hears of it
+    thr = []
+    for n, hs in sets:
+        if n in ('daemon[obeys,None,None]', 'daemon[obeys,2.0,3.0]', 'daemon[cancel,2.0,3.0]', 'daemon[cancel,None,3.0]', 'daemon+timer', 'timer[interval]'):
+            for gap1, gap2 in ((0.25, 0.5), (0.25, 0.25), (0.5, 0.25)):
+                sc = build(n, hs, [], 1.0, delays=False, early_user=False, time_dev=False)
+                params = dict(sc.params)
+                params['handlers'] = [dict(h, script=['ok+note']) if h['id'] == 'ev' else h for h in params['handlers']]
+                params['user'] = [(1.0, 'createl', 'a', 'on', 'yes'), (6.0, 'status', 'a', 1), (6.0 + gap1, 'delete', 'a'), (6.0 + gap1 + gap2, 'strip', 'a')]
+                params['fail_window'] = [6.0, 6.1]
+                params['horizon'] = 30.0
+                params['settings'] = dict(params['settings'], queueing__error_delays=(2.0,))
+                thr.append(C09Scenario(**params))
     if tier == 'quick':
-        groups = [('histories', hist, 0, 70.0), ('timing', reps, 1, 40.0), ('pause-while-an-event-is-processed', inst, 1, 40.0)]
+        groups = [('histories', hist, 0, 70.0), ('timing', reps, 1, 40.0), ('pause-while-an-event-is-processed', inst, 1, 40.0), ('vanishes-while-throttled', thr, 0, 20.0)]
     else:
-        groups = [('histories', hist, 0, 800.0), ('timing', reps, 2, 600.0), ('pause-while-an-event-is-processed', inst, 2, 600.0)]
+        groups = [('histories', hist, 0, 800.0), ('timing', reps, 2, 600.0), ('pause-while-an-event-is-processed', inst, 2, 600.0), ('vanishes-while-throttled', thr, 1, 200.0)]
     stats, viols, info, nscen = run_groups(groups, seed=seed)
     return CheckResult(
         prop='C09', tier=tier, seed=seed, stats=stats, violations=viols, scenarios=nscen,
